@@ -379,12 +379,50 @@ func main() {
 		r.States.Add(int64(n))
 	}
 
+	// --- phase D: many definitions of one device at one priority (3, 4, 5 files in the top directory)
+	{
+		w := &world{root: filepath.Join(base, "many"), dirs: []string{"d0", "d1"}}
+		w.slots = append(w.slots, slot{"d0", "a.yaml"})
+		for _, n := range []string{"a.yaml", "b.json", "c.yaml", "d.json", "e.yaml"} {
+			w.slots = append(w.slots, slot{"d1", n})
+		}
+		w.reset()
+		sub := []dirmodel.Kind{dirmodel.Absent, dirmodel.X, dirmodel.XY, dirmodel.Y}
+		lowKinds := []dirmodel.Kind{dirmodel.Absent, dirmodel.X, dirmodel.XY}
+		n := len(lowKinds)
+		for range w.slots[1:] {
+			n *= len(sub)
+		}
+		walker := w.newCache(w.dirs)
+		many := int64(0)
+		for i := 0; i < n && !r.Expired(); i++ {
+			t := dirmodel.NewTree()
+			x := i
+			for si, s := range w.slots {
+				ks := sub
+				if si == 0 {
+					ks = lowKinds
+				}
+				t.Set(s.dir, s.name, ks[x%len(ks)])
+				_ = dirmodel.WriteSlot(w.root, s.dir, s.name, ks[x%len(ks)])
+				x /= len(ks)
+			}
+			verify(r, "many-definitions", w, w.dirs, t, w.newCache(w.dirs), "fresh cache", nil)
+			_ = walker.Refresh()
+			verify(r, "many-definitions-one-cache", w, w.dirs, t, walker, "cache refreshed from the previous state", nil)
+			many++
+		}
+		r.Extra["many_definition_states"] = many
+		r.AddEvals(many, many)
+		r.States.Add(many)
+	}
+
 	r.Rule = fmt.Sprintf("states = all assignments of %d file kinds %v to the slots %v of %d directories (%d states); transitions = set one slot to another kind followed by Refresh() on the cache that was refreshed in the previous state, and back (every (state, transition) pair); "+
-		"a single cache also walks through all states in Gray-code order; 13 directory-list shapes (reversed, repeated, missing, empty, non-clean spellings) on a %d-state sub-space; decoy files (non-Spec names, sub-directory, directory named dir.yaml) sit in the top directory. "+
+		"a single cache also walks through all states in Gray-code order; 13 directory-list shapes (reversed, repeated, missing, empty, non-clean spellings) on a %d-state sub-space; up to five files in the top directory defining the same devices (3 x 4^5 states, fresh cache and one cache refreshed through all of them); decoy files (non-Spec names, sub-directory, directory named dir.yaml) sit in the top directory. "+
 		"Oracle: precedence model computed from the abstract population (dirmodel.Resolve) for ListDevices, GetDevice path/priority/definition, ListVendors, ListClasses, GetVendorSpecs, GetErrors containing every invalid file; equality with a fresh cache. "+
 		"distinct_nontrivial counts distinct states in which at least one device resolves or one file is invalid", len(kinds), kinds, slotNames, ndirs, total, 256)
 	r.Assumptions = []string{"manual-refresh configuration; the automatic-refresh configuration of the same transitions is explored under the controlled scheduler in C11",
-		"conflict bookkeeping in GetErrors is not constrained, only that every invalid file has an entry", "more than 2 slots per directory / 3 directories are not enumerated"}
+		"conflict bookkeeping in GetErrors is not constrained, only that every invalid file has an entry", "more than 2 slots per directory are enumerated for the top directory only (phase D, 5 slots, valid kinds); more than 3 directories are not enumerated"}
 	os.RemoveAll(base)
 	r.Finish()
 }
